@@ -36,6 +36,73 @@ func nlGen(g *G, tier string) []M {
 			op["alloc"] = true
 		}
 	}
+	// some merges in which a shared node's two versions differ in nothing but the fraction of a
+	// second of a date: the second operand's value is another value and wins all the same
+	for _, op := range ops {
+		switch asStr(op["op"]) {
+		case "intersect", "union":
+		default:
+			continue
+		}
+		if !g2.Chance(0.1) {
+			continue
+		}
+		an := map[string]M{}
+		for _, n := range asList(op["a"].(M)["nodes"]) {
+			an[asStr(n.(M)["id"])] = n.(M)
+		}
+		for _, n := range asList(op["b"].(M)["nodes"]) {
+			nb := n.(M)
+			na, ok := an[asStr(nb["id"])]
+			if !ok {
+				continue
+			}
+			// same content on both sides, then the date
+			nb["a"] = Normalize(na["a"])
+			nb["type"] = na["type"]
+			for _, l := range []M{na, nb} {
+				if l["a"] == nil {
+					l["a"] = M{}
+				}
+			}
+			fld := []string{"ReleaseDate", "BuildDate", "ValidUntilDate"}[g2.Int(3)]
+			sec := float64(1700000000 + g2.Int(100))
+			na["a"].(M)[fld] = []any{sec, 250000000.0}
+			nb["a"].(M)[fld] = []any{sec, 750000000.0}
+			break
+		}
+	}
+	// some merges of lists that both hold a node without identifier which is a root element of one
+	// of them (an ill-formed pair: the set clauses hold for those too)
+	for _, op := range ops {
+		switch asStr(op["op"]) {
+		case "intersect", "union", "add":
+		default:
+			continue
+		}
+		if !g2.Chance(0.06) {
+			continue
+		}
+		a, b := op["a"].(M), op["b"].(M)
+		has := func(l M) bool {
+			for _, n := range asList(l["nodes"]) {
+				if asStr(n.(M)["id"]) == "" {
+					return true
+				}
+			}
+			return false
+		}
+		for _, l := range []M{a, b} {
+			if !has(l) {
+				l["nodes"] = append(asList(l["nodes"]), M{"id": "", "type": 0.0, "a": M{"Name": "anonymous"}})
+			}
+		}
+		which := a
+		if g2.Chance(0.5) {
+			which = b
+		}
+		which["roots"] = append(asList(which["roots"]), "")
+	}
 	// a quarter of the matching operations with a probe that is an element of the list itself
 	for _, op := range ops {
 		if asStr(op["op"]) != "match" || !g2.Chance(0.25) {
@@ -147,7 +214,7 @@ func nlGen0(g *G, tier string) []M {
 		case 14, 15:
 			ops = append(ops, M{"op": "nodeDescendants", "a": a, "id": anyID(), "depth": float64(g.Int(7) - 1)})
 		case 16:
-			ops = append(ops, M{"op": "purlType", "a": a, "t": g.Pick([]string{"npm", "deb", "golang", "x", "go", "gem", "n", ""})})
+			ops = append(ops, M{"op": "purlType", "a": a, "t": g.Pick([]string{"npm", "deb", "golang", "x", "go", "gem", "n", "", "n.m", "c++", "c+", "g.lang", "c*", "(npm", "[a-z]+"})})
 		case 17:
 			switch g.Int(4) {
 			case 0:
